@@ -15,20 +15,21 @@ PART = {
                  "Carquet.Properties.C02.C02_returned_buffers_alive"],
     components=["file"],
     fidelity={"Impl.Writer + Impl.FileReal": "exact (whole files byte-for-byte, codecs 0/1/5/7)",
-              "reader from bytes to decoded pages": "in progress (reader component); until then read-back is judged on the real code only"},
+              "reader from bytes to decoded pages": "Impl.Reader (reader part): exact for the open paths and page loaders, tied value-exact on every generated file"},
     rule="file: see C05 (same generator): for every generated history the real reader's output (three I/O modes) must "
          "equal the written table: row groups, rows, null positions, bit-identical values; byte-array pointers are "
          "dereferenced by instrumented code right after the call",
-    assumptions=["whole-file composition theorem (reader(writer(history)) = table) not yet proved: the obligations listed are "
-                 "the layer theorems it is composed from"],
+    assumptions=["file-level composition readAll (fileOf history) = table: see the compose part; page / chunk level and the "
+                 "writer half (C05_written_table) are theorems"],
     trusted_base=[],
-    text="(partial) layer theorems of the round trip are proved for all inputs: levels (RLE hybrid with length prefix), "
+    text="layer theorems of the round trip are proved for all inputs: levels (RLE hybrid with length prefix), "
          "PLAIN for every writable type, Snappy/LZ4, the file envelope, consumption-pattern independence of the column "
          "reader over decoded pages and liveness of returned byte-array buffers; the writer's control is modelled exactly "
-         "and produces the real files byte for byte. The composition into one whole-file theorem and the reader model from "
-         "bytes to pages are in progress. On the real code every generated write history (all partitions into batches, all "
+         "and produces the real files byte for byte. The reader model from bytes to pages with its page / chunk level "
+         "round-trip theorems is the reader part; the writer half (page contents = the table the history denotes) is "
+         "C05_written_table. On the real code every generated write history (all partitions into batches, all "
          "null patterns, 6 codec tags, page sizes from 1 byte) is written, re-opened in three modes and compared.",
-    level_note="Lean kernel; harness; whole-file theorem pending",
+    level_note="Lean kernel; harness",
     technique="Lean 4 layer proofs + byte-exact writer model + differential round trip on the real code",
   ),
 }
